@@ -183,6 +183,9 @@ def loader_tolerance(ctx) -> None:
 def run(ctx) -> None:
     from . import C08
     loader_tolerance(ctx)
+    from . import C05 as _C05
+
+    _C05.key_paths(ctx)
 
     C08.eqhash_agreement(ctx, ('forml.io.asset',), floor=3)
     drivers(ctx)
